@@ -90,6 +90,10 @@ func main() {
 	if v := os.Getenv("VERIF_REPO"); v != "" {
 		gRepo = v
 	}
+	if v := os.Getenv("VERIF_DIR"); v != "" {
+		gVerif = v
+		gHarnessDir = filepath.Join(v, "harness")
+	}
 	switch os.Args[1] {
 	case "check":
 		os.Exit(cmdCheck(os.Args[2:]))
@@ -197,6 +201,9 @@ func cmdCheck(args []string) int {
 			nw = 16
 		}
 	}
+	// a worker returning from a pipe read (solver answer) must find a free P at once, otherwise it waits for
+	// the 10 ms preemption tick of another CPU-bound worker: keep more Ps than workers
+	runtime.GOMAXPROCS(2*nw + 4)
 	budget := cfg.QuickSecs
 	if budget == 0 {
 		budget = 120
@@ -366,7 +373,7 @@ func cmdCheck(args []string) int {
 		fmt.Printf("OK property=%s wall=%.1fs solver_queries=%d (sat=%d unsat=%d unknown=%d) solver_s=%.1f validated_natively=%d\n", id, wall,
 			atomic.LoadInt64(&gStats.Queries), gStats.Sat, gStats.Unsat, gStats.Unknown, float64(gStats.Nanos)/1e9, validated)
 	} else {
-		fmt.Printf("INCONCLUSIVE property=%s (check is broken or bound too large; see lines above)\n", id)
+		fmt.Printf("INCONCLUSIVE property=%s (check is broken or bound too large; see lines above) wall=%.1fs solver_queries=%d solver_s=%.1f\n", id, wall, atomic.LoadInt64(&gStats.Queries), float64(gStats.Nanos)/1e9)
 	}
 	return exit
 }
